@@ -117,6 +117,24 @@ def check(run: Run) -> None:
         for a in unphi_terms(t):
             ok = a == nodea or (a[0] == "new" and a[1] == "Constant") or a[0] == "tvisit"
             run.check(ok, "C04.R2", va, s, "visit_Attribute returns the node, a folded Constant or the marked enum reference", f"visit_Attribute returns {show(a)[:100]}")
+        # Inside the folding branch (the value is a Constant that has the attribute) the dotted name is left in place only
+        # for members *of an enum class* - the test is on the object the attribute is read from, not on what was found:
+        # Cfg.color, a plain attribute that happens to hold an enum member, is a value to freeze (or to refuse)
+        fx_ = Facts(fa2, s)
+        in_fold = any(pol and isinstance(a_, ast.Call) and isinstance(a_.func, ast.Name) and a_.func.id == "hasattr" and len(a_.args) == 2 and fa2.cfg.has_node(a_.args[0]) and strip_sites(fa2.term_of(a_.args[0])) == ("attr", V, "value") for a_, pol in fx_.atoms)
+        keeps_name = any(a == nodea or a[0] == "tvisit" for a in unphi_terms(t))
+        if in_fold and keeps_name:
+            from ..lib import match_isinstance
+
+            subj_ok = False
+            for a_, pol in fx_.atoms:
+                got = match_isinstance(a_) if isinstance(a_, (ast.Call, ast.Compare)) else None
+                if got is None or not pol:
+                    continue
+                subj_e, cls_es, _exact = got
+                if any("Enum" in ast.unparse(c_) for c_ in cls_es) and fa2.cfg.has_node(subj_e):
+                    subj_ok = subj_ok or strip_sites(fa2.term_of(subj_e)) == ("attr", V, "value")
+            run.check(subj_ok, "C04.R2", va, s, "the dotted name is kept only for members of an enum class (test on the object read from)", "inside the folding branch the attribute reference is left in the query under a test that is not 'the object the attribute is read from is an enum class': a plain attribute whose value happens to be an enum member (Cfg.color) is then neither frozen by value nor refused", "isinstance(value.value, Enum.__class__)", key="enum branch tested on the looked-up value")
 
     # ---------------- R7: visit_Call always traverses the whole call
     rc = cls.methods.get("visit_Call")
